@@ -529,6 +529,24 @@ def run_dro(spec, ctx):
             else:
                 q.eq('dro x()', c0, w0)
                 q.eq('dro x(assign)', c1, w1)
+        # one realisation per scenario (assign(..., sw=True)): scenario s is evaluated with its
+        # own rule at its own realisation
+        Zsw = np.zeros((Sn, nv + 1))
+        Zsw[:, nv] = np.round(rng.uniform(0, 1, Sn), 2)
+        try:
+            c2 = x(z.assign(Zsw, sw=True))
+            for s in range(Sn):
+                e = DR.event_of(part, s)
+                got = c2.loc[index[s]] if isinstance(c2, pd.Series) else c2
+                q.eq('dro x(assign sw)[label]', got, V[e] + coef * Zsw[s, nv])
+            e3 = 3.0 * x - 1.0
+            c3 = e3(z.assign(Zsw, sw=True))
+            for s in range(Sn):
+                e = DR.event_of(part, s)
+                got = c3.loc[index[s]] if isinstance(c3, pd.Series) else c3
+                q.eq('dro affine(assign sw)[label]', got, 3.0 * (V[e] + coef * Zsw[s, nv]) - 1.0)
+        except Exception as exn:
+            ctx.count('query_raises:dro assign sw:' + type(exn).__name__)
         if not v['affine']:
             eb = (x * z[nv]).sum() + 1.0 if shape != () else x * z[nv] + 1.0
             try:
@@ -594,6 +612,15 @@ def run_dro(spec, ctx):
     for s in range(Sn):
         cc = ca.loc[index[s]] if isinstance(ca, pd.Series) else ca
         q.eq('dro switch(assign)[label]', cc, side[s] * (zq - 0.5), shape=False)
+    Zsw = np.zeros((Sn, nv + 1))
+    Zsw[:, nv] = np.round(rng.uniform(0, 1, Sn), 2)
+    try:
+        cs = xa(z.assign(Zsw, sw=True))
+        for s in range(Sn):
+            cc = cs.loc[index[s]] if isinstance(cs, pd.Series) else cs
+            q.eq('dro switch(assign sw)[label]', cc, side[s] * (Zsw[s, nv] - 0.5), shape=False)
+    except Exception as exn:
+        ctx.count('query_raises:dro switch assign sw:' + type(exn).__name__)
     feats = {'front': 'dro', 'S': Sn, 'labels': 'int' if labels is None else
              type(labels[0]).__name__,
              'partitions': sorted({len(v['partition']) for v in vs}),
